@@ -24,14 +24,15 @@ static uint8_t *body;
 static size_t body_len;
 static uint8_t *body2;          /* second transfer of "e2e b11": its own byte stream */
 static size_t body2_len;
-static uint8_t app_tok2[8];
+static uint8_t app_tok2[40];
+static int opt_tok, opt_meth, opt_rq, opt_q2, opt_nort;   /* key=value options of the e2e line */
 static size_t app_tok2_len;
 static coap_context_t *srv, *cli;
 static coap_endpoint_t *ep;
 static coap_session_t *cs;
 static unsigned srv_mtu;
 static int dir_b2;
-static uint8_t app_tok[8];
+static uint8_t app_tok[40];
 static size_t app_tok_len;
 static int n_rel_c, n_rel_s;
 
@@ -90,8 +91,11 @@ static void hnd_get(coap_resource_t *r, coap_session_t *s, const coap_pdu_t *req
   show_blk(req, COAP_OPTION_BLOCK2);
   fputc(' ', stdout);
   coap_pdu_set_code(resp, COAP_RESPONSE_CODE_CONTENT);
+  /* "e2e b22": the representation depends on the query: ?v=1 is body A, anything else body B */
+  int second = body2 && !(q && q->length == 3 && memcmp(q->s, "v=1", 3) == 0);
   int ok = coap_add_data_large_response(r, s, req, resp, q, COAP_MEDIATYPE_APPLICATION_OCTET_STREAM,
-                                        -1, 0, body_len, body, rel_s, NULL);
+                                        -1, 0, second ? body2_len : body_len, second ? body2 : body,
+                                        rel_s, NULL);
   printf("ADL:%d ", ok);
 }
 
@@ -207,8 +211,24 @@ static void e2e(void) {
   int single_cli = atoi(vtok[8]), single_srv = atoi(vtok[9]);
   unsigned cli_mtu = (unsigned)atoi(vtok[10]);
   srv_mtu = (unsigned)atoi(vtok[11]);
-  const char *sched = vntok > 12 ? vtok[12] : "";
+  const char *sched = vntok > 12 && !strchr(vtok[12], '=') ? vtok[12] : "";
   size_t nsched = strlen(sched);
+  /* trailing key=value options: tok=<n> application token of n bytes (RFC 8974 extended tokens
+   * above 8, max_token_size 32 on both ends); meth=fetch|post + rq=<n>: the download is asked for
+   * with a request that carries n bytes of payload; q2=<0|2>: query of the second GET of "b22" */
+  opt_tok = opt_meth = opt_rq = opt_q2 = opt_nort = 0;
+  int npos = vntok;
+  for (int i = 12; i < vntok; i++) {
+    if (!strchr(vtok[i], '=')) continue;
+    if (i < npos) npos = i;
+    if (!strncmp(vtok[i], "tok=", 4)) opt_tok = atoi(vtok[i] + 4);
+    else if (!strcmp(vtok[i], "meth=fetch")) opt_meth = 1;
+    else if (!strcmp(vtok[i], "meth=post")) opt_meth = 2;
+    else if (!strncmp(vtok[i], "rq=", 3)) opt_rq = atoi(vtok[i] + 3);
+    else if (!strncmp(vtok[i], "q2=", 3)) opt_q2 = atoi(vtok[i] + 3);
+    else if (!strncmp(vtok[i], "nort=", 5)) opt_nort = atoi(vtok[i] + 5);   /* COAP_BLOCK_NO_PREEMPTIVE_RTAG */
+  }
+  if (opt_tok > 32) opt_tok = 32;
 
   body = (uint8_t *)malloc(body_len ? body_len : 1);
   for (size_t i = 0; i < body_len; i++) body[i] = (uint8_t)fill_byte(seed, (long)i);
@@ -222,7 +242,8 @@ static void e2e(void) {
   srv = coap_new_context(NULL);
   cli = coap_new_context(NULL);
   coap_context_set_block_mode(srv, COAP_BLOCK_USE_LIBCOAP | (single_srv ? COAP_BLOCK_SINGLE_BODY : 0));
-  coap_context_set_block_mode(cli, COAP_BLOCK_USE_LIBCOAP | (single_cli ? COAP_BLOCK_SINGLE_BODY : 0));
+  coap_context_set_block_mode(cli, COAP_BLOCK_USE_LIBCOAP | (single_cli ? COAP_BLOCK_SINGLE_BODY : 0) |
+                              (opt_nort ? COAP_BLOCK_NO_PREEMPTIVE_RTAG : 0));
   if (srv_szx != 7) coap_context_set_max_block_size(srv, (size_t)16 << srv_szx);
   if (cli_szx != 7) coap_context_set_max_block_size(cli, (size_t)16 << cli_szx);
   coap_register_event_handler(srv, ev_srv);
@@ -231,17 +252,42 @@ static void e2e(void) {
   coap_resource_t *r = coap_resource_init(coap_make_str_const("t"), 0);
   coap_register_request_handler(r, COAP_REQUEST_PUT, hnd_put);
   coap_register_request_handler(r, COAP_REQUEST_GET, hnd_get);
+  if (dir_b2) {
+    coap_register_request_handler(r, COAP_REQUEST_FETCH, hnd_get);
+    coap_register_request_handler(r, COAP_REQUEST_POST, hnd_get);
+  }
   coap_add_resource(srv, r);
   coap_register_response_handler(cli, hnd_resp);
   coap_register_nack_handler(cli, hnd_nack);
+  if (opt_tok > 8) {
+    coap_context_set_max_token_size(srv, 32);
+    coap_context_set_max_token_size(cli, 32);
+  }
   cs = vn_new_client(cli, &ep->bind_addr);
+  if (opt_tok > 8)
+    /* the RFC 8974 probe request of the library waits in real time (coap_client_delay_first);
+     * the harness declares the peer's support known instead */
+    cs->max_token_checked = COAP_EXT_T_CHECKED;
   if (cli_mtu) coap_session_set_mtu(cs, cli_mtu);
+  int b22 = !strcmp(vtok[1], "b22");
 
   coap_pdu_t *p = coap_new_pdu(type ? COAP_MESSAGE_NON : COAP_MESSAGE_CON,
-                               dir_b2 ? COAP_REQUEST_CODE_GET : COAP_REQUEST_CODE_PUT, cs);
-  coap_session_new_token(cs, &app_tok_len, app_tok);
+                               !dir_b2 ? COAP_REQUEST_CODE_PUT :
+                               opt_meth == 1 ? COAP_REQUEST_CODE_FETCH :
+                               opt_meth == 2 ? COAP_REQUEST_CODE_POST : COAP_REQUEST_CODE_GET, cs);
+  if (opt_tok > 0) {
+    app_tok_len = (size_t)opt_tok;
+    for (size_t i = 0; i < app_tok_len; i++) app_tok[i] = (uint8_t)(0xA0 + i);
+  } else {
+    coap_session_new_token(cs, &app_tok_len, app_tok);
+  }
   coap_add_token(p, app_tok_len, app_tok);
   coap_add_option(p, COAP_OPTION_URI_PATH, 1, (const uint8_t *)"t");
+  if (dir_b2 && opt_rq > 0) {
+    uint8_t cf = COAP_MEDIATYPE_APPLICATION_OCTET_STREAM;
+    coap_add_option(p, COAP_OPTION_CONTENT_FORMAT, 1, &cf);
+  }
+  if (b22) coap_add_option(p, COAP_OPTION_URI_QUERY, 3, (const uint8_t *)"v=1");
   if (app_szx != 7) {
     uint8_t buf[4];
     coap_add_option(p, dir_b2 ? COAP_OPTION_BLOCK2 : COAP_OPTION_BLOCK1,
@@ -255,6 +301,11 @@ static void e2e(void) {
     adl_ok = coap_add_data_large_request(cs, p, body_len, body, rel_c, NULL);
     printf("ADL:%d ", adl_ok);
   }
+  if (dir_b2 && opt_rq > 0) {
+    uint8_t rq[64];
+    for (int i = 0; i < opt_rq && i < 64; i++) rq[i] = (uint8_t)(0x30 + i);
+    coap_add_data(p, (size_t)(opt_rq > 64 ? 64 : opt_rq), rq);
+  }
   if (adl_ok) {
     coap_mid_t mid = coap_send(cs, p);
     printf("SEND:%d ", mid);
@@ -266,7 +317,7 @@ static void e2e(void) {
 
   /* "e2e b11 ... <sched> <len2> <startB>": a second PUT to the same resource on the same session,
    * sent when the datagram log has reached startB entries (0 = at once) */
-  int two = !strcmp(vtok[1], "b11") && vntok >= 15;
+  int two = (!strcmp(vtok[1], "b11") || b22) && npos >= 15;
   size_t start_b = 0;
   int sent_b = 1;
   body2 = NULL;
@@ -283,15 +334,26 @@ static void e2e(void) {
   for (long steps = 0;; steps++) {
     if (steps > 400000 || vn_nout > 4 * ((body_len + body2_len) / 16) + 600) { why = "steps"; break; }
     if (!sent_b && (vn_nout >= start_b || (next >= vn_nout && nheld == 0))) {
-      coap_pdu_t *p2 = coap_new_pdu(type ? COAP_MESSAGE_NON : COAP_MESSAGE_CON, COAP_REQUEST_CODE_PUT, cs);
-      coap_session_new_token(cs, &app_tok2_len, app_tok2);
+      coap_pdu_t *p2 = coap_new_pdu(type ? COAP_MESSAGE_NON : COAP_MESSAGE_CON,
+                                    b22 ? COAP_REQUEST_CODE_GET : COAP_REQUEST_CODE_PUT, cs);
+      if (opt_tok > 0) {
+        app_tok2_len = (size_t)opt_tok;
+        for (size_t i = 0; i < app_tok2_len; i++) app_tok2[i] = (uint8_t)(0xB0 + i);
+      } else {
+        coap_session_new_token(cs, &app_tok2_len, app_tok2);
+      }
       coap_add_token(p2, app_tok2_len, app_tok2);
       coap_add_option(p2, COAP_OPTION_URI_PATH, 1, (const uint8_t *)"t");
+      if (b22 && opt_q2 == 2) coap_add_option(p2, COAP_OPTION_URI_QUERY, 3, (const uint8_t *)"v=2");
+      if (b22 && app_szx != 7) {
+        uint8_t buf2[4];
+        coap_add_option(p2, COAP_OPTION_BLOCK2, coap_encode_var_safe(buf2, sizeof(buf2), (unsigned)app_szx), buf2);
+      }
       printf("TOK2:");
       for (size_t i = 0; i < app_tok2_len; i++) printf("%02x", app_tok2[i]);
       fputc(' ', stdout);
-      int ok2 = coap_add_data_large_request(cs, p2, body2_len, body2, rel_c, NULL);
-      printf("ADL:%d ", ok2);
+      int ok2 = b22 ? 1 : coap_add_data_large_request(cs, p2, body2_len, body2, rel_c, NULL);
+      if (!b22) printf("ADL:%d ", ok2);
       if (ok2) printf("SEND:%d ", coap_send(cs, p2));
       else coap_delete_pdu(p2);
       sent_b = 1;
@@ -543,6 +605,104 @@ static void peer(void) {
   body2_len = 0;
 }
 
+/* peer g2 <len> <seed> <srv_szx> <item>...   raw GETs with Block2 into the real server
+ *   item = num/szx/q : Block2 NUM, SZX; q = '-' (no Uri-Query) | <n> (Uri-Query "v=<n>")
+ * the resource answers ?v=<n> with body n (own byte stream), no query with body 0, through
+ * coap_add_data_large_response().  Result per item: R:<code>:<num/m/szx>:<plen>:<eq>, eq '=' when
+ * the payload is body_q at the offset of the returned block, '!' when it is not, '-' no payload */
+static void rel_free(coap_session_t *s, void *p) { (void)s; free(p); }
+
+static void hnd_get_peer(coap_resource_t *r, coap_session_t *s, const coap_pdu_t *req,
+                         const coap_string_t *q, coap_pdu_t *resp) {
+  unsigned long t = 0;
+  if (q && q->length >= 3 && q->s[0] == 'v' && q->s[1] == '=') t = strtoul((const char *)q->s + 2, NULL, 10);
+  uint8_t *b = (uint8_t *)malloc(body_len ? body_len : 1);
+  for (size_t i = 0; i < body_len; i++) b[i] = peer_byte(t, i);
+  coap_pdu_set_code(resp, COAP_RESPONSE_CODE_CONTENT);
+  /* libcoap copies nothing: the buffer lives as long as the lg_xmit and is freed by the release */
+  coap_add_data_large_response(r, s, req, resp, q, COAP_MEDIATYPE_APPLICATION_OCTET_STREAM, -1, 0,
+                               body_len, b, rel_free, b);
+}
+
+static void peer_g2(void) {
+  body_len = (size_t)atol(vtok[2]);
+  peer_seed = atol(vtok[3]);
+  int szx_cfg = atoi(vtok[4]);
+  vn_now = 1000;
+  vn_log_reset();
+  vn_nnodes = 0;
+  vn_prng_seed((uint64_t)peer_seed * 104729u + body_len);
+  srv = coap_new_context(NULL);
+  cli = NULL;
+  coap_context_set_block_mode(srv, COAP_BLOCK_USE_LIBCOAP | COAP_BLOCK_SINGLE_BODY);
+  if (szx_cfg != 7) coap_context_set_max_block_size(srv, (size_t)16 << szx_cfg);
+  ep = vn_new_server_ep(srv);
+  coap_resource_t *r = coap_resource_init(coap_make_str_const("t"), 0);
+  coap_register_request_handler(r, COAP_REQUEST_GET, hnd_get_peer);
+  coap_add_resource(srv, r);
+  coap_address_t peer_addr;
+  vn_addr4(&peer_addr, 0x0a000001u, 40000);
+  unsigned mid = 300;
+  for (int i = 5; i < vntok; i++) {
+    unsigned num, szx;
+    char qs[32];
+    if (sscanf(vtok[i], "%u/%u/%31s", &num, &szx, qs) != 3) { printf("BADITEM "); continue; }
+    coap_pdu_t *p = coap_pdu_init(COAP_MESSAGE_NON, COAP_REQUEST_CODE_GET, (coap_mid_t)(mid++), 256);
+    uint8_t tok[2] = {0x55, (uint8_t)i}, buf[8];
+    char qopt[40];
+    coap_add_token(p, 2, tok);
+    coap_add_option(p, COAP_OPTION_URI_PATH, 1, (const uint8_t *)"t");
+    unsigned long t = 0;
+    if (strcmp(qs, "-")) {
+      t = strtoul(qs, NULL, 10);
+      int n = snprintf(qopt, sizeof(qopt), "v=%lu", t);
+      coap_add_option(p, COAP_OPTION_URI_QUERY, (size_t)n, (const uint8_t *)qopt);
+    }
+    coap_add_option(p, COAP_OPTION_BLOCK2, coap_encode_var_safe(buf, sizeof(buf), (num << 4) | szx), buf);
+    size_t hs = coap_pdu_encode_header(p, COAP_PROTO_UDP);
+    size_t first = vn_nout;
+    vn_inject_ep(srv, ep, &peer_addr, NULL, p->token - hs, hs + p->used_size);
+    coap_delete_pdu(p);
+    int shown = 0;
+    for (size_t k = vn_nout; k > first && !shown; k--) {
+      vn_dgram_t *d = &vn_out[k - 1];
+      coap_pdu_t *rp = coap_pdu_init(0, 0, 0, d->len + 8);
+      if (rp && coap_pdu_parse(COAP_PROTO_UDP, d->data, d->len, rp)) {
+        coap_block_b_t b;
+        size_t len = 0;
+        const uint8_t *data = NULL;
+        coap_get_data(rp, &len, &data);
+        printf("R:%u:", rp->code);
+        char eq = '-';
+        if (rp->code != 69) {
+          fputs("-", stdout);       /* error: the diagnostic payload is not compared */
+          len = 0;
+        } else if (coap_get_block_b(NULL, rp, COAP_OPTION_BLOCK2, &b)) {
+          printf("%u/%u/%u", b.num, b.m, b.szx);
+          if (rp->code == 69 && data) {
+            size_t off = (size_t)b.num << (b.szx + 4);
+            eq = '=';
+            if (off + len > body_len) eq = '!';
+            else for (size_t q = 0; q < len; q++) if (data[q] != peer_byte(t, off + q)) { eq = '!'; break; }
+          }
+        } else {
+          fputs("-", stdout);
+          if (rp->code == 69 && data) {
+            eq = len == body_len ? '=' : '!';
+            for (size_t q = 0; q < len && eq == '='; q++) if (data[q] != peer_byte(t, q)) eq = '!';
+          }
+        }
+        printf(":%zu:%c ", len, eq);
+        shown = 1;
+      }
+      if (rp) coap_delete_pdu(rp);
+    }
+    if (!shown) printf("NONE ");
+  }
+  printf("END\n");
+  coap_free_context(srv);
+}
+
 int main(void) {
   coap_startup();
   coap_set_log_level(COAP_LOG_EMERG);
@@ -550,6 +710,7 @@ int main(void) {
   while (next_case(stdin)) {
     if (vntok == 0) { puts(""); continue; }
     if (!strcmp(vtok[0], "e2e") && vntok >= 12) e2e();
+    else if (!strcmp(vtok[0], "peer") && vntok >= 5 && !strcmp(vtok[1], "g2")) peer_g2();
     else if (!strcmp(vtok[0], "peer") && vntok >= 6) peer();
     else puts("ERROR unknown command");
     fflush(stdout);
